@@ -79,6 +79,9 @@ def cases(rnd):
     th0 = thg + np.array([rnd.uniform(-0.15, 0.15) for _ in range(n2)]) * rnd.choice([1, 1, 4])
     out.append(('IKinSpace', (S2.copy(), M2.copy(), thg.copy(), th0.copy(), 0.01, 0.001), 'ik'))
     out.append(('IKinBody', (S2.copy(), M2.copy(), thg.copy(), th0.copy(), 0.01, 0.001), 'ik'))
+    # restarted at its own solution: the test of the starting vector evaluates both its halves and no iteration runs
+    out.append(('IKinSpace', (S2.copy(), M2.copy(), thg.copy(), thg.copy(), 0.01, 0.001), 'ik'))
+    out.append(('IKinBody', (S2.copy(), M2.copy(), thg.copy(), thg.copy(), 0.01, 0.001), 'ik'))
     d = dyn(rnd)
     add('InverseDynamics', d['th'], d['dth'], d['ddth'], d['g'], d['F'], d['Mlist'], d['Glist'], d['S'])
     add('MassMatrix', d['th'], d['Mlist'], d['Glist'], d['S'])
@@ -103,8 +106,11 @@ def cases(rnd):
     out.append(('CartesianTrajectory', (X1, X2, Tf, N, meth), 'traj'))
     add('ComputedTorque', d['th'], d['dth'], np.array([rnd.uniform(-0.1, 0.1) for _ in range(nn)]), d['g'], d['Mlist'], d['Glist'], d['S'],
         the, d['dth'] * 0.5, d['ddth'], 1.3, 1.2, 1.1)
+    # the controller's model of the robot differs from the robot in every respect it can: gravity, link frames AND link inertias
+    Mt = d['Mlist'].copy(); Mt[:, :3, 3] = Mt[:, :3, 3] * 1.05
+    Gt = d['Glist'] * np.array([rnd.uniform(0.8, 1.25) for _ in range(len(d['Glist']))]).reshape(-1, 1, 1)
     out.append(('SimulateControl', (d['th'], d['dth'], d['g'], Fm, d['Mlist'], d['Glist'], d['S'], mat(2), mat(2), mat(2), d['g'] * 1.05,
-                                    d['Mlist'], d['Glist'], 20.0, 10.0, 18.0, 0.01, 2), 'traj'))
+                                    Mt, Gt, 20.0, 10.0, 18.0, 0.01, 2), 'traj'))
     return out
 
 
